@@ -25,7 +25,9 @@ LoggedOut(ev) == [obs |-> ev.obs, rew |-> ev.rew, term |-> ev.term, trunc |-> ev
 
 Clauses(ev) ==
   LET ls == LoggedState(ev) IN
-  IF ev.ev = "reset"
+  IF ev.ev = "at"          \* spec -> code edge cover: the harness placed the real object in a state TLC reported reachable
+  THEN [PlacedStateIsWellFormed |-> ev.s \in 1..cfg.nS /\ Len(ev.cnt) = M!Depth]
+  ELSE IF ev.ev = "reset"
   THEN [ResetStateIsInitial  |-> M!IsInitialState(ls),
         ResetObsIsOwn        |-> ev.obs = M!WObs(ls)]
   ELSE IF ev.ev = "gxstep"      \* a Gymnax-style step: termination and truncation arrive merged as `done' (ev.term)
@@ -44,7 +46,11 @@ Clauses(ev) ==
         ObsIsOfReturnedState    |-> ev.obs = M!WObs(ls)]
 Failed(ev) == LET c == Clauses(ev) IN {n \in DOMAIN c : ~c[n]}
 
-TStep == /\ l >= 1 /\ l <= Len(Tr) /\ Failed(Tr[l]) = {}
+TPlace == /\ l >= 1 /\ l <= Len(Tr) /\ Tr[l].ev = "at" /\ Failed(Tr[l]) = {}
+          /\ st' = LoggedState(Tr[l]) /\ eplen' = Tr[l].eplen
+          /\ out' = [obs |-> M!WObs(LoggedState(Tr[l])), rew |-> 0, term |-> FALSE, trunc |-> FALSE]
+          /\ l' = l + 1 /\ UNCHANGED <<cfg, tid, rej>>
+TStep == /\ l >= 1 /\ l <= Len(Tr) /\ Tr[l].ev # "at" /\ Failed(Tr[l]) = {}
          /\ IF Tr[l].ev = "reset" THEN E!Reset ELSE E!Step(Tr[l].a)
          /\ st' = LoggedState(Tr[l])
          /\ IF Tr[l].ev = "gxstep" THEN out'.obs = Tr[l].obs /\ out'.rew = Tr[l].rew ELSE out' = LoggedOut(Tr[l])
@@ -52,7 +58,7 @@ TStep == /\ l >= 1 /\ l <= Len(Tr) /\ Failed(Tr[l]) = {}
 TReject == /\ l >= 1 /\ l <= Len(Tr) /\ Failed(Tr[l]) # {}
            /\ rej' = <<l, Failed(Tr[l])>> /\ l' = 0
            /\ UNCHANGED <<cfg, st, out, eplen, tid>>
-TNext == TStep \/ TReject
+TNext == TStep \/ TPlace \/ TReject
 TSpec == TInit /\ [][TNext]_vars
 
 Mark == /\ IF l = Len(Tr) + 1 THEN TLCSet(1, TLCGet(1) \cup {tid}) ELSE TRUE
